@@ -171,6 +171,7 @@ def strategy(tier):
         "explicit_empty": st.lists(st.booleans(), min_size=4, max_size=4),
         "ops": st.lists(OP, min_size=1, max_size=25),
         "subclass": st.sampled_from([False, False, True]),
+        "any_only": st.booleans(),
     })
 
 
@@ -184,12 +185,20 @@ def run(case, ctx):
     ev = []
     with_handlers = case["handlers"]
 
+    # an OBJECT-LEVEL handler only (no name): it is told about every property change even when nothing listens to the
+    # property by name
+    any_only = bool(case.get("any_only")) and not with_handlers
+
     def attach(o):
         if with_handlers:
             for p in PROPS:
                 o.observe(lambda e: ev.append(("obs", e.name, e.new)), p)
                 o.on_trait_change(lambda obj, n, old, new: ev.append(("otc", n, new)), p)
+        if any_only:
+            o.on_trait_change(lambda obj, n, old, new: ev.append(("any", n, new)))
     attach(o)
+    if any_only:
+        ctx.label("object-level-handler-only")
     interesting = False
     removed_once = set()
     for op in case["ops"]:
@@ -352,6 +361,9 @@ def run(case, ctx):
                          % (p, got, what, after[p], before[p]))
             if before[p] != after[p]:
                 ctx.label("value-altering-change")
+                if any_only and not [e for e in ev if e[0] == "any" and e[1] == p]:
+                    ctx.fail("notify/missing", "%s changed %r -> %r by %s but the object-level handler was not told (it heard %r)"
+                             % (p, before[p], after[p], what, sorted({e[1] for e in ev})))
                 if with_handlers:
                     for mech in ("obs", "otc"):
                         got_ev = [e for e in ev if e[0] == mech and e[1] == p]
